@@ -52,6 +52,38 @@ func regexGlobal(pat string) func(e *Engine) Value {
 	}
 }
 
+// denomShape decides sdk.ValidateDenom syntactically for "<const>" ++ hex(<fixed-length bytes>) shapes ("ibc/" + hash).
+func denomShape(s *T) (bool, bool) {
+	if s.Op != "str.++" || len(s.Args) == 0 || !s.Args[0].IsConst() || s.Args[0].Str == "" {
+		return false, false
+	}
+	n := 0
+	for i, a := range s.Args {
+		switch {
+		case a.IsConst():
+			if !regexp.MustCompile(`^[a-zA-Z0-9/:._-]*$`).MatchString(a.Str) {
+				return false, true
+			}
+			if i == 0 && !regexp.MustCompile(`^[a-zA-Z]`).MatchString(a.Str) {
+				return false, true
+			}
+			n += len(a.Str)
+		case a.Op == "uf" && (a.Name == "hexenc" || a.Name == "hexencU") && a.Args[0].FixLen > 0:
+			n += 2 * a.Args[0].FixLen
+		default:
+			return false, false
+		}
+	}
+	return n >= 3 && n <= 128, true
+}
+
+// jsonEnc is the JSON encoder stand-in over the structural encoding: a JSON object, hence starting with '{'.
+func jsonEnc(e *Engine, enc *T) *T {
+	j := UF("json_enc", StrS, enc)
+	e.addAxiom(fmt.Sprintf("jsonenc:%d", j.id), StrPrefixOf(StrConst("{"), j))
+	return j
+}
+
 func init() {
 	thirdPartyGlobals["github.com/cosmos/cosmos-sdk/types.IsAlphaNumeric"] = regexGlobal(`^[a-zA-Z0-9]+$`)
 	thirdPartyGlobals["github.com/cosmos/cosmos-sdk/types.IsAlphaLower"] = regexGlobal(`^[a-z]+$`)
@@ -65,13 +97,93 @@ func init() {
 		}
 		return e.callBody(fn, a)
 	})
+	// Identifier validators, opt-in abstraction (verif.AbstractIdentifiers): an uninterpreted predicate that implies the
+	// length, non-blank and separator-free facts; counterexamples are concretised against the real rule.
+	reg(ibcgo+"modules/core/24-host.defaultIdentifierValidator", func(e *Engine, fn *ssa.Function, a []Value) Value {
+		id := toSeq(a[0])
+		lo, okLo := constU64(a[1])
+		hi, okHi := constU64(a[2])
+		if !e.abstractIDs || id.IsConst() || !okLo || !okHi {
+			return e.callBody(fn, a)
+		}
+		ok := UF(fmt.Sprintf("idvalid_%d_%d", lo, hi), BoolS, id)
+		n := StrLen(id)
+		e.addAxiom(fmt.Sprintf("idvalid:%d:%d:%d", id.id, lo, hi), Implies(ok, AndN(
+			Not(Eq(id, StrConst(""))), Not(StrContains(id, StrConst("/"))),
+			IntCmp(">=", n, IntConst(int64(lo))), IntCmp("<=", n, IntConst(int64(hi))))))
+		if e.branch(ok) {
+			return nil
+		}
+		return e.newErr("invalid identifier")
+	})
+	reg(vp+"AbstractIdentifiers", func(e *Engine, fn *ssa.Function, a []Value) Value {
+		e.abstractIDs = a[0].(*T).IsTrue()
+		return nil
+	})
 	reg("github.com/cosmos/gogoproto/proto.EnumName", func(e *Engine, fn *ssa.Function, a []Value) Value { return StrConst("<enum>") })
 	reg("github.com/cosmos/gogoproto/proto.CompactTextString", func(e *Engine, fn *ssa.Function, a []Value) Value { return StrConst("<proto>") })
 	// JSON side of the proto codec: decoding relayer-supplied bytes is modelled as failing (the code paths that
 	// only run after a successful JSON decode can only reject more); encoding is an uninterpreted function.
-	reg("(*github.com/cosmos/cosmos-sdk/codec.ProtoCodec).UnmarshalJSON", func(e *Engine, fn *ssa.Function, a []Value) Value {
-		e.note("ProtoCodec.UnmarshalJSON modelled as returning an error (JSON decoding of untrusted bytes is outside the claim)")
+	// jsonTarget follows pointers / interfaces down to the struct cell a JSON decoder fills.
+	var jsonTarget func(v Value) *Loc
+	jsonTarget = func(v Value) *Loc {
+		switch x := v.(type) {
+		case *IfaceVal:
+			if x == nil {
+				return nil
+			}
+			return jsonTarget(x.V)
+		case *PtrVal:
+			if x == nil {
+				return nil
+			}
+			if x.L.Fields != nil {
+				return x.L
+			}
+			return jsonTarget(load(x.L))
+		}
+		return nil
+	}
+	// decoding JSON: bytes produced by the JSON encoder on this path decode to the encoded value (canonical encodings);
+	// any other bytes are modelled as a decoding error (non-canonical / malformed JSON is outside the claim).
+	jsonDecode := func(e *Engine, bz *T, target Value) Value {
+		if bz.Op == "uf" && bz.Name == "json_enc" && e.encInfo[bz.Args[0]] != nil {
+			if l := jsonTarget(target); l != nil {
+				e.decodeInto(l, bz.Args[0], "_"+shortType(l.T), 0)
+				return nil
+			}
+		}
+		e.note("JSON decoding of bytes not produced by the JSON encoder is modelled as an error (non-canonical JSON is outside the claim)")
 		return e.newErr("json")
+	}
+	reg("(*github.com/cosmos/cosmos-sdk/codec.ProtoCodec).UnmarshalJSON", func(e *Engine, fn *ssa.Function, a []Value) Value {
+		return jsonDecode(e, toSeq(a[1]), a[2])
+	})
+	reg("encoding/json.Unmarshal", func(e *Engine, fn *ssa.Function, a []Value) Value {
+		return jsonDecode(e, toSeq(a[0]), a[1])
+	})
+	reg("encoding/json.Marshal", func(e *Engine, fn *ssa.Function, a []Value) Value {
+		iv, _ := a[0].(*IfaceVal)
+		if iv == nil {
+			return Tuple{StrConst("null"), nil}
+		}
+		switch x := iv.V.(type) {
+		case *PtrVal:
+			if x != nil {
+				return Tuple{jsonEnc(e, e.encode(load(x.L), x.L.T, shortType(x.L.T))), nil}
+			}
+		case *StructVal:
+			return Tuple{jsonEnc(e, e.encode(x, iv.T, shortType(iv.T))), nil}
+		}
+		panic(inconclusive{"json.Marshal of " + iv.T.String()})
+	})
+	// canonical (sorted) JSON of an encoder output is that output (the encoder stand-in is the canonical form)
+	reg("github.com/cosmos/cosmos-sdk/types.MustSortJSON", func(e *Engine, fn *ssa.Function, a []Value) Value {
+		s := toSeq(a[0])
+		if s.Op == "uf" && s.Name == "json_enc" {
+			return s
+		}
+		return UF("json_sort", StrS, s)
 	})
 	reg("(*github.com/cosmos/cosmos-sdk/codec.ProtoCodec).MustMarshalJSON", func(e *Engine, fn *ssa.Function, a []Value) Value {
 		iv, _ := a[1].(*IfaceVal)
@@ -79,7 +191,7 @@ func init() {
 			return StrConst("null")
 		}
 		if p, ok := iv.V.(*PtrVal); ok && p != nil {
-			return UF("json_enc", StrS, e.encode(load(p.L), p.L.T, shortType(p.L.T)))
+			return jsonEnc(e, e.encode(load(p.L), p.L.T, shortType(p.L.T)))
 		}
 		panic(inconclusive{"MustMarshalJSON of non-pointer"})
 	})
@@ -88,6 +200,8 @@ func init() {
 		var ok *T
 		if c, isC := goStr(s); isC {
 			ok = BoolConst(regexp.MustCompile(`^[a-zA-Z][a-zA-Z0-9/:._-]{2,127}$`).MatchString(c))
+		} else if v, known := denomShape(s); known {
+			ok = BoolConst(v)
 		} else {
 			t, err := regexMatchTerm(`^[a-zA-Z][a-zA-Z0-9/:._-]{2,127}$`, s)
 			if err != nil {
